@@ -31,6 +31,7 @@ TraceStep ==
      /\ \/ e.a = "Start"    /\ Start
         \/ e.a = "Complete" /\ Complete(e.t)
         \/ e.a = "Fail"     /\ Fail(e.t)
+        \/ e.a = "FailCancelled" /\ FailCancelled(e.t)
         \/ e.a = "Step"     /\ Step
      /\ PostOk(e.post)
   /\ l' = l + 1 /\ UNCHANGED tid
